@@ -31,7 +31,7 @@ HALF6 = Fraction(1, 2 * 10**6)
 ULP = Fraction(1, 2**50)       # slack for: nearest double of the written decimal (2^-53 rel) and one float product with m
 
 
-PROP_MODULES = ['C16', 'C16Gen']
+PROP_MODULES = ['C16', 'C16Gen', 'C16GenFns']
 
 def cps(s):
     return " ".join(str(ord(c)) for c in s)
@@ -542,4 +542,46 @@ _run_main2 = run
 def run(ctx):
     _run_main2(ctx)
     extras2(ctx)
+    ctx.flush()
+
+
+# ---- malformed files: the loader's error precedence (model repaired after a translator bridge exposed a wrong order, DESIGN §10) ---------------
+
+MALFORMED = ["", "lab", "lab\n", "2 0.01", "lab\n2 0.01", "lab\n2 0.01\n\n", "lab\n\t\n", "lab\n\n\t\n", "lab\n1 x #\t\n", "lab\n1 2 #\t\n",
+             "lab\n\t\n1.0\n", "l\nonly\nabc", "l\nonly\n1.5", "l\n1 0.5\nabc", "l\n1 x\n2.5"]
+
+
+def malformed(ctx):
+    """a separate malformed stream: load_values_and_dt and the model must agree on the OUTCOME (which error kind, or which values and dt)
+    for file contents no writer produces; correspondence only (the property speaks about saved files)"""
+    import tempfile
+    import shutil
+    from eqsig import loader
+    os.makedirs(WORK, exist_ok=True)
+    tmp = tempfile.mkdtemp(dir=WORK, prefix='c16m-')
+    try:
+        for k, text in enumerate(MALFORMED):
+            path = os.path.join(tmp, f'm{k}.txt')
+            with open(path, 'w', newline='') as f:
+                f.write(text)
+            res = call_impl(loader.load_values_and_dt, path)
+            ctx.hist('malformed/outcome=' + (res[1] if res[0] == 'err' else 'ok'))
+
+            def compare(outs, val):
+                mv, md = p_rats(outs[0]), p_rats(outs[1])[0]
+                got = [float(x) for x in np.atleast_1d(np.asarray(val[0], dtype=float))]
+                if [float(x) for x in mv] != got:
+                    return f"values impl={got} model={[float(x) for x in mv]}"
+                return None if float(md) == float(val[1]) else f"dt impl={val[1]!r} model={float(md)!r}"
+            ctx.corr('load_values_and_dt (malformed file)', f"load_text|{cps(text)}", res, compare, inputs={'file_content': text})
+    finally:
+        shutil.rmtree(tmp, True)
+
+
+_run_main_mf = run
+
+
+def run(ctx):
+    _run_main_mf(ctx)
+    malformed(ctx)
     ctx.flush()
